@@ -168,3 +168,95 @@ Section CodecLaws.
   Theorem no_flush_no_change : forall s i k s', In (i, k, s') (crash_states s []) -> s' = s.
   Proof. intros s i k s' [E|[]]. inversion E. reflexivity. Qed.
 End CodecLaws.
+
+(* ================= several flushes, crashes in between ================= *)
+Section Rounds.
+  Context {T : Type}.
+  Variable encode : T -> bytes.
+  Variable decode : bytes -> option T.
+  Variable dflt : T.
+  Variable tgt : path.
+  Notation fload := (fload decode dflt tgt).
+
+  Definition flush_of (r : T * path) : list fsop := safe_flush tgt (snd r) (encode (fst r)).
+
+  (* Whatever earlier interrupted flushes left behind (stray temporary files with any partial
+     content — the temporary file of a flush is created empty, under a fresh name or by truncation),
+     the target always holds the original table or one of the tables flushed so far, and a flush
+     that completes makes it hold exactly the table flushed last. *)
+  Theorem crash_then_flush_atomic : roundtrip encode decode -> forall rounds : list (T * path),
+    Forall (fun r => snd r <> tgt) rounds ->
+    forall s s', In s' (crash_runs s (map flush_of rounds)) ->
+    (fload s' = fload s \/ exists r, In r rounds /\ fload s' = Some (fst r)) /\
+    (forall t tmp, tmp <> tgt -> fload (run s' (safe_flush tgt tmp (encode t))) = Some t).
+  Proof.
+    intros RT rounds F s s' I. split.
+    - revert s I. induction F as [|r rounds Hr _ IH]; intros s I.
+      + destruct I as [<-|[]]. left. reflexivity.
+      + cbn [map crash_runs] in I. apply in_flat_map in I as [[[i k] s1] [I1 I2]]. cbn [snd] in I2.
+        pose proof (crash_atomic_at encode decode dflt tgt (snd r) Hr RT s (fst r) i k s1 I1) as A.
+        destruct (IH s1 I2) as [E|[r' [Ir' E]]].
+        * rewrite E, A. destruct (i <? 5)%nat; [left; reflexivity|].
+          right. exists r. split; [left; reflexivity|reflexivity].
+        * right. exists r'. split; [right; exact Ir'|exact E].
+    - intros t tmp N. apply (flush_reload encode decode dflt tgt tmp N RT).
+  Qed.
+
+  (* the oracle applied to each round of the re-crash experiment accepts the model *)
+  Variable teqb : T -> T -> bool.
+  Hypothesis teqb_refl : forall t, teqb t t = true.
+
+  Theorem round_model_passes : roundtrip encode decode -> forall tmp, tmp <> tgt -> forall s told t,
+    fload s = Some told ->
+    forall i k s', In (i, k, s') (crash_states s (safe_flush tgt tmp (encode t))) ->
+    round_ok teqb told t (Nat.eqb i 5) (fload s') = true.
+  Proof.
+    intros RT tmp N s told t L i k s' I.
+    rewrite (crash_atomic_at encode decode dflt tgt tmp N RT s t i k s' I).
+    assert (i <= 5)%nat as Le.
+    { unfold crash_states, safe_flush in I. cbn [crash_from partials apply app] in I.
+      destruct (fupd s tmp (Some []) tmp); cbn [app] in I;
+        repeat (destruct I as [E|I]; [inversion E; subst; auto with arith|]);
+        try contradiction;
+        try (apply in_app_or in I as [I|I]; [apply in_map_iff in I as [j [E _]]; inversion E; auto with arith|]);
+        repeat (destruct I as [E|I]; [inversion E; subst; auto with arith|]); try contradiction. }
+    unfold round_ok. destruct (Nat.eqb i 5) eqn:E5.
+    - apply PeanoNat.Nat.eqb_eq in E5. subst i. cbn. apply teqb_refl.
+    - apply PeanoNat.Nat.eqb_neq in E5.
+      assert ((i <? 5)%nat = true) as -> by (apply PeanoNat.Nat.ltb_lt; apply PeanoNat.Nat.le_neq; auto).
+      rewrite L. unfold loaded_ok. rewrite teqb_refl. reflexivity.
+  Qed.
+
+  (* ---- one fixed temporary name opened WITHOUT truncation and reused ---- *)
+  (* JSON: an encoding followed by anything is not a document *)
+  Definition trailing_invalid := forall t g, g <> [] -> decode (encode t ++ g) = None.
+
+  (* A flush of a big table is interrupted after its write: the target is intact, the temporary file
+     stays.  The server restarts and flushes a smaller table to completion: the file renamed into place
+     is the new JSON followed by the tail of the abandoned write, and does not load. *)
+  Theorem crash_then_reuse_flush_refuted : forall tmp, tmp <> tgt -> forall s tb ts,
+    s tmp = None -> (length (encode ts) < length (encode tb))%nat ->
+    exists i k s1, In (i, k, s1) (crash_states s (reuse_flush tgt tmp (encode tb))) /\
+      s1 tgt = s tgt /\
+      let s2 := run s1 (reuse_flush tgt tmp (encode ts)) in
+      s2 tgt = Some (encode ts ++ skipn (length (encode ts)) (encode tb)) /\
+      skipn (length (encode ts)) (encode tb) <> [] /\
+      (trailing_invalid -> fload s2 = None).
+  Proof.
+    intros tmp N s tb ts Hn Lt.
+    exists 2%nat, O. eexists. split; [|split; [|split; [|split]]].
+    - unfold crash_states, reuse_flush. cbn [crash_from partials apply app]. rewrite Hn. fs_simp.
+      right. right. apply in_or_app. right. left. reflexivity.
+    - cbn [skipn app]. rewrite fupd_other by exact N. apply fupd_other. exact N.
+    - unfold run, reuse_flush. cbn [fold_left apply]. fs_simp. cbn [skipn app]. fs_simp.
+      rewrite fupd_other by exact N. rewrite fupd_same. rewrite skipn_nil, app_nil_r. reflexivity.
+    - intros E. apply (f_equal (@length Z)) in E. rewrite skipn_length in E. cbn in E.
+      apply PeanoNat.Nat.sub_0_le in E. apply (PeanoNat.Nat.lt_irrefl (length (encode ts))).
+      eapply PeanoNat.Nat.lt_le_trans; eassumption.
+    - intros TI. unfold C18CrashFs.fload, run, reuse_flush. cbn [fold_left apply]. fs_simp. cbn [skipn app]. fs_simp.
+      rewrite fupd_other by exact N. rewrite fupd_same. rewrite skipn_nil, app_nil_r. apply TI.
+      intros E. apply (f_equal (@length Z)) in E. rewrite skipn_length in E. cbn in E.
+      apply PeanoNat.Nat.sub_0_le in E. apply (PeanoNat.Nat.lt_irrefl (length (encode ts))).
+      eapply PeanoNat.Nat.lt_le_trans; eassumption.
+  Qed.
+End Rounds.
